@@ -124,6 +124,10 @@ class IsoTpStateMachine:
             if expected_segment_idx != rx_segment_idx:
                 self.on_sequence_error(telegram_idx, expected_segment_idx, rx_segment_idx)
             elif len(telegram_data) == n:
+                # the telegram is complete: make sure that subsequent
+                # consecutive frames do not cause it to be reported again
+                self._telegram_data[telegram_idx] = None
+
                 self.on_telegram_complete(telegram_idx, telegram_data)
                 yield (rx_id, telegram_data)
 
